@@ -62,6 +62,7 @@ def check_c13(prog, rep, tier, cfg):
     c13i(prog, rep)
     c13j(prog, rep)
     c13k(prog, rep)
+    c13l(prog, rep)
 
 
 def c13g(prog, rep):
@@ -290,6 +291,89 @@ def c13k(prog, rep, R="C13.k"):
                   "%s: %s — the run of `#` character codes ends there although another `#` may follow: `'a'#$D#$A'b'` is cut into `'a'#$D` and `#$A'b'`" % (short(x.npath), bad[:2]),
                   where="%s:%d" % (x.file, x.line), instance={"scanner": short(x.npath), "paths_returning_Continue": n})
     rep.floor(R, "paths of the run scanner that return Continue", n, 1)
+
+
+def _eval_u64(desc, word):
+    """value of an integer / boolean description over one 64-bit word (wrapping arithmetic); raises ValueError for anything else"""
+    from table import split_call
+    M = (1 << 64) - 1
+    d = desc.strip()
+    if d.startswith("place:") or d.startswith("sym:") or d.startswith("call:"):
+        d = d.split(":", 1)[1]
+    if re.match(r"^-?\d+$", d):
+        return int(d) & M
+    sc = split_call(d)
+    if not sc:
+        raise ValueError(d[:40])
+    nm, args = sc[0].split("::")[-1], sc[1]
+    if nm in ("from_ne_bytes", "from_le_bytes", "from_be_bytes"):
+        return word if nm != "from_be_bytes" else int.from_bytes(word.to_bytes(8, "little"), "big")
+    a = [_eval_u64(x, word) for x in args]
+    two = {"Add": lambda x, y: (x + y) & M, "AddWithOverflow": lambda x, y: (x + y) & M, "wrapping_add": lambda x, y: (x + y) & M, "Sub": lambda x, y: (x - y) & M,
+           "wrapping_sub": lambda x, y: (x - y) & M, "BitAnd": lambda x, y: x & y, "BitOr": lambda x, y: x | y, "BitXor": lambda x, y: x ^ y,
+           "Shl": lambda x, y: (x << (y & 63)) & M, "Shr": lambda x, y: x >> (y & 63), "Mul": lambda x, y: (x * y) & M, "wrapping_mul": lambda x, y: (x * y) & M,
+           "Eq": lambda x, y: int(x == y), "Ne": lambda x, y: int(x != y), "Lt": lambda x, y: int(x < y), "Le": lambda x, y: int(x <= y), "Gt": lambda x, y: int(x > y), "Ge": lambda x, y: int(x >= y)}
+    if nm in two and len(a) == 2:
+        return two[nm](a[0], a[1])
+    if nm == "Not" and len(a) == 1:
+        return (~a[0]) & M
+    raise ValueError(nm)
+
+
+def c13l(prog, rep, R="C13.l"):
+    """C13.l — sibling agreement of a word-at-a-time fast path with the bytewise scanner behind it.  Where a scanner of the lexer loads
+    several bytes of the input as one integer (`u64::from_ne_bytes` ..) and steps over the whole word when a bit trick says so, every
+    byte value the trick accepts is a byte the bytewise predicate of the same function accepts: the conditions on the path that goes
+    on with the next word are evaluated for every byte value in every lane (the other lanes holding a byte both accept).  A nibble
+    trick for digits that also passes `* + , - . /` takes `1234567+7` for one number."""
+    from table import Table, TooComplex, run_concrete, eval_desc, vdesc, Unknown
+    n = 0
+    for b in prog.bodies.values():
+        if not b.npath.startswith(LX) or "::tests::" in b.npath or "avx2" in b.npath or not b.loops():
+            continue
+        loads = [c for c in b.calls() if (c.callee or "").split("::")[-1] in ("from_ne_bytes", "from_le_bytes", "from_be_bytes") and "u64" in str(c.t.get("callee_args", "")) + (c.callee or "") + b.locals[c.t["dst"]["l"]]["ty"]]
+        if not loads:
+            continue
+        n += 1
+        # the bytewise predicate of the same function: a bool closure over one byte
+        preds = []
+        for x in prog.bodies.values():
+            if x.npath.startswith(b.npath + "::{closure") and x.locals[0]["ty"] == "bool" and not x.loops():
+                ps = [i for i in range(1, x.arg_count + 1) if x.locals[i]["ty"].replace("&", "").strip() == "u8"]
+                if len(ps) == 1:
+                    preds.append((x, ps[0]))
+        heads = set(b.loops())
+        bad, err = [], None
+        try:
+            if not preds:
+                raise ValueError("no bytewise predicate in the function")
+            ptb = Table(prog, preds[0][0], inline=1)
+
+            def accepts(v):
+                res, _ = run_concrete(ptb, {"arg%d" % preds[0][1]: v})
+                return bool(eval_desc(vdesc(res), {"arg%d" % preds[0][1]: v}))
+            good = [v for v in range(256) if accepts(v)]
+            filler = good[0]
+            for h in sorted(heads):
+                tb = Table(prog, b, start=h, stop=heads, inline=1, max_paths=4000)
+                for (cons, res), end in zip(tb.rows, tb.ends):
+                    conds = [(str(c[1]), c[2]) for c in cons if c[0] == "cond" and re.search(r"from_(ne|le|be)_bytes\(", str(c[1]))]
+                    if end is None or not conds:
+                        continue
+                    for lane_i in range(8):
+                        for v in range(256):
+                            word = 0
+                            for k in range(8):
+                                word |= (v if k == lane_i else filler) << (8 * k)
+                            if all((_eval_u64(t, word) != 0) == (want != 0) for t, want in conds) and not accepts(v):
+                                bad.append(v)
+        except (TooComplex, Unknown, ValueError, IndexError, KeyError) as e:
+            err = str(e)[:80]
+        rep.check(not bad and err is None, R, "word-at-a-time:%s" % short(b.npath),
+                  "%s steps over a whole word of input when a bit trick accepts it, but the trick %s: a token boundary then depends on how the text is aligned in 8-byte words"
+                  % (short(b.npath), ("cannot be evaluated (%s)" % err) if err else "also accepts the bytes %s, which the bytewise scanner of the same function does not" % sorted({chr(v) if 32 <= v < 127 else hex(v) for v in bad})[:8]),
+                  where="%s:%d" % (b.file, b.line), instance={"scanner": short(b.npath), "accepted_by_the_trick_only": sorted(set(bad))[:8]})
+    rep.note("C13.l: %d word-at-a-time scanners in the lexer" % n)
 
 
 def c13a(prog, rep):
